@@ -13,7 +13,7 @@
  * Oracle at every select (and a full drain checked at every explored state):
  *   ap : returned task = highest priority pending, earliest scheduled among equals; distance ignored
  *   spq: returned task comes from the smallest pending distance; within it highest priority, earliest among equals
- *   ip : returned task has the lowest priority pending (no tie rule claimed)
+ *   ip : returned task has the lowest priority pending, whatever the distances (no tie rule claimed)
  *   all: NULL iff nothing is pending.
  */
 #include "parsec/parsec_config.h"
@@ -76,8 +76,6 @@ static int op_is_sched(int op) { return op >= 1 && op <= nrings * ND; }
 static int op_is_resched(int op) { return op > nrings * ND; }
 
 static int drain_violations = 0;
-static int KNOWN_IP_DIST = 0;     /* --known-ip-distance: the lead listed the ip/distance finding in known_findings.json */
-static long known_hits = 0;
 
 static void *fresh(void)
 {
@@ -112,14 +110,7 @@ static int expect_ok(obj_t *o, parsec_task_t *got, char *err)
             if (x->dist == g->dist && x->prio > g->prio) { snprintf(err, SX_ERRLEN, "spq: at distance %d selected priority %d while priority %d is pending", g->dist, g->prio, x->prio); return 1; }
             if (x->dist == g->dist && x->prio == g->prio && x->stamp < g->stamp) { snprintf(err, SX_ERRLEN, "spq: tie at distance %d priority %d not served in scheduling order", g->dist, g->prio); return 1; }
         } else {
-            if (x->prio < g->prio) {
-                /* attribution rule of the recorded finding "ip appends distance>0 rings unsorted at the selection end":
-                 * the inversion is attributable iff the selected task or a still pending task was placed with distance>0 */
-                int attributable = g->dist > 0;
-                for (int k = 0; k < o->nt; k++) if (o->m[k].pending && o->m[k].dist > 0) attributable = 1;
-                if (KNOWN_IP_DIST && attributable) { known_hits++; sx_known_finding("ip-distance-appends-at-selection-end: ip selects a task placed with distance>0 (or leaves one pending) out of priority order"); continue; }
-                snprintf(err, SX_ERRLEN, "ip: selected priority %d while a task of lower priority %d is pending (its distance %d, selected one's distance %d)", g->prio, x->prio, x->dist, g->dist); return 1;
-            }
+            if (x->prio < g->prio) { snprintf(err, SX_ERRLEN, "ip: selected priority %d while a task of lower priority %d is pending (its distance %d, selected one's distance %d)", g->prio, x->prio, x->dist, g->dist); return 1; }
         }
     }
     g->pending = 0;
@@ -260,7 +251,6 @@ int main(int argc, char **argv)
         else if (!strcmp(argv[i], "--depth") && i + 1 < argc) DEPTH = atoi(argv[++i]);
         else if (!strcmp(argv[i], "--pv") && i + 1 < argc) PV = atoi(argv[++i]);
         else if (!strcmp(argv[i], "--noresched")) RESCHED = 0;
-        else if (!strcmp(argv[i], "--known-ip-distance")) KNOWN_IP_DIST = 1;
     }
     mod = !strcmp(modname, "ap") ? M_AP : !strcmp(modname, "ip") ? M_IP : !strcmp(modname, "spq") ? M_SPQ : -1;
     if (mod < 0 || L < 1 || L > 4 || NP < 1 || NP > 4 || ND < 1 || ND > 4 || PV < 0 || PV > 2 || DEPTH < 1 || DEPTH * L > MAXT) { fprintf(stderr, "bad arguments\n"); return 2; }
